@@ -195,13 +195,16 @@ def proof_step(prop, tier, extra_vo=()):
 
 # ---------------------------------------------------------------- build step
 
-def build_harness(release=False):
+LIT_BIN = os.path.join(HARNESS, "target", "debug", "arr-rs-verif-lit")
+
+
+def build_harness(release=False, bin_name="arr-rs-verif-harness"):
     with Lock("cargo"):
         lock_src = "/repo/Cargo.lock"
         lock_dst = os.path.join(HARNESS, "Cargo.lock")
         if os.path.exists(lock_src) and not os.path.exists(lock_dst):
             open(lock_dst, "wb").write(open(lock_src, "rb").read())
-        cmd = ["cargo", "build", "--offline", "--quiet"] + (["--release"] if release else [])
+        cmd = ["cargo", "build", "--offline", "--quiet", "--bin", bin_name] + (["--release"] if release else [])
         env = dict(ENV, RUSTFLAGS=(ENV.get("RUSTFLAGS", "") + " --cfg arr_rs_verif -Awarnings").strip())
         rc, out, dt = run(cmd, 1800, cwd=HARNESS, env=env)
     return rc == 0, out, dt
